@@ -131,13 +131,19 @@ class C15(InterpProp):
                 ops.append(['exec', i, t])
         if raiser:
             ops.append(['execute', 0, 10 ** 6, 60])
+        real = not raiser and rnd.random() < 0.1
+        if real:
+            # the history ends with `execute(max_steps=…)` itself: what the steps it returns list as sent is what was delivered
+            for _ in range(rnd.randint(2, 6)):
+                ops.append(['queue', 0, {'ev': rnd.choice(gen.EVENTS), 'data': [['v', rnd.randint(0, 4)], ['b', rnd.random() < 0.5]]}])
+            ops.append(['execute_real', 0, t, rnd.choice([1, 2, 3, 5])])
         payload = {'kind': 'interp', 'charts': [e.json for e in encs], 'ops': ops, 'record_deliveries': True}
         if raiser:
             payload['raiser'] = True
         if rnd.random() < 0.2:
             # the callables are bound methods of objects nothing else refers to
             payload['method_targets'] = True
-        return Case(payload, {'charts': charts}, model_ok=all(e.supported for e in encs) and not detacher and not mutator and not raiser)
+        return Case(payload, {'charts': charts}, model_ok=all(e.supported for e in encs) and not detacher and not mutator and not raiser and not real)
 
     def shrink_candidates(self, case):
         p = case.payload
@@ -167,6 +173,15 @@ class C15(InterpProp):
                 nl += 1
             elif op[0] == 'detach':
                 bound[op[2]][3] = False
+            elif op[0] == 'execute_real':
+                r = ob['r']
+                if isinstance(r, dict) and not r.get('err'):
+                    sent = [e['event'] for st in r['steps'] for m in st['steps'] for e in m['sent'] if e['internal']]
+                    announced = [m['data'][0][1] for m in oracles.meta_effects(r['eff']) if m['ev'] == 'event sent']
+                    if announced != sent:
+                        res.violations.append('op %d: execute(max_steps=%d) returned %d steps listing %s as sent; delivered to the '
+                                              'listeners: %s' % (k, op[3], len(r['steps']), sent[:6], announced[:6]))
+                    res.features.add('execute()')
             elif op[0] == 'exec':
                 r = ob['r']
                 i = op[1]
